@@ -14,29 +14,6 @@ Proof. intros. unfold tmpname. rewrite parent_snoc, last_last. reflexivity. Qed.
 
 Ltac conf := unfold confined; cbn [call_paths is_listdir forallb negb]; rewrite ?under_app, ?under_refl; reflexivity.
 
-Lemma makedirs_p_unfold : forall A fuel ok p (k : fres unit -> prog A),
-  makedirs_p (S fuel) ok p k =
-  let leaf :=
-    Do (CMkdir p) (fun r =>
-      match r with
-      | FOk _ => k (FOk tt)
-      | FErr e =>
-          if ok then Do (CStat p) (fun r2 => if is_dir_r r2 then k (FOk tt) else k (FErr e))
-          else k (FErr e)
-      end) in
-  match parent p with
-  | [] | [_] => leaf
-  | hd =>
-      Do (CStat hd) (fun rh =>
-        if exists_r rh then leaf
-        else makedirs_p fuel ok hd (fun r =>
-               match r with
-               | FOk _ | FErr EEXIST => leaf
-               | FErr e => k (FErr e)
-               end))
-  end.
-Proof. reflexivity. Qed.
-
 Section CONFINED.
   Variable frepr : fl -> str.
   Variable atomic : bool.
@@ -225,8 +202,10 @@ Proof.
     set (tmp := tmpname tag file) in *.
     unfold exec_res in H. simpl in H.
     destruct (write_file f tmp empty_content) as [fa|ea] eqn:E1; simpl in H; [|discriminate].
+    unfold exec_res in H. simpl in H.
     unfold write_open in H. rewrite (get_write_file _ _ _ _ tmp E1), path_eqb_refl in H.
     destruct (write_file fa tmp (jcontent frepr v)) as [fb|eb] eqn:E2; simpl in H; [|discriminate].
+    unfold exec_res in H. simpl in H.
     destruct (rename fb tmp file) as [fc|ec] eqn:E3; simpl in H; [|discriminate].
     injection H as <-.
     assert (Gt : get fb tmp = Some (File (jcontent frepr v))) by (rewrite (get_write_file _ _ _ _ tmp E2), path_eqb_refl; reflexivity).
@@ -236,3 +215,19 @@ Proof.
     - apply path_eqb_neq in Etf. rewrite (get_rename_file fb tmp file _ fc file Gt Etf E3), path_eqb_refl. reflexivity. }
   unfold doc_load. simpl. unfold exec_res. simpl. rewrite (Hg file eq_refl), Hf. simpl. reflexivity.
 Qed.
+
+(* ------------------------------------------------------------------ the in-place write loses the race *)
+Definition wit_p : str := [112%N].
+Definition wit_ws : path := [wit_p; WS].
+Definition wit_f0 : fs := [([wit_p], Dir); (wit_ws, Dir)].
+Definition wit_sp : json := JObj [([97%N], JInt 2)].
+Definition wit_repr : fl -> str := fun _ => [].
+Definition wit_sched : list nat := [0;0;0;0;0;0;0; 1;1;1;1;1]%nat.
+Definition wit_progs (atomic : bool) : list (prog (list aobs)) :=
+  [actor_prog wit_repr atomic [97%N] wit_ws [AProject; AInit wit_sp] [];
+   actor_prog wit_repr atomic [98%N] wit_ws [AProject; AInit wit_sp] []].
+
+Lemma init_race_direct_write_witness :
+  snd (interleave wit_sched wit_f0 (wit_progs false)) = [inl [OUnit; OUnit]; inr (PExn EJobsCorrupted)]
+  /\ snd (interleave wit_sched wit_f0 (wit_progs true)) = [inl [OUnit; OUnit]; inl [OUnit; OUnit]].
+Proof. split; vm_compute; reflexivity. Qed.
